@@ -65,3 +65,15 @@ def tier1_problems(tier, rng):
         yield {"h": h, "w": w, "grid": [[rng.randint(0, max(h, w) + 1) for _ in range(w)] for _ in range(h)]}
     for (h, w) in [(0, 0), (0, 2), (2, 0)]:
         yield {"h": h, "w": w, "grid": [[] for _ in range(h)]}
+
+
+def big(tier, rng):
+    """long single-row / single-column boards, everything unshaded: the two ends are capes; one carries the
+    two-digit length of the line, the other a circle without number (or also the length)"""
+    th = tier == "thorough"
+    for n in (L.LONG if th else L.sample(rng, L.LONG, 3) + [21]):
+        for other in (0, n):
+            row = [-1] * n
+            row[0], row[n - 1] = n, other
+            yield {"h": 1, "w": n, "grid": [row], "planted": [[1] * n]}
+            yield {"h": n, "w": 1, "grid": [[v] for v in row[::-1]], "planted": [[1] * n]}
